@@ -986,6 +986,63 @@ func abs(x int) int {
 	return x
 }
 
+// ParseCanonFEN is a small independent parser for canonical FEN text (used to tell the specification which
+// position a text denotes when the engine refuses it).
+func ParseCanonFEN(fen string) (bd []int, stm, cr, ep, hm, fm int, ok bool) {
+	f := strings.Split(fen, " ")
+	if len(f) != 6 {
+		return
+	}
+	bd = make([]int, 64)
+	rank, file := 7, 0
+	for i := 0; i < len(f[0]); i++ {
+		ch := f[0][i]
+		switch {
+		case ch == '/':
+			rank--
+			file = 0
+		case ch >= '1' && ch <= '8':
+			file += int(ch - '0')
+		default:
+			pc := strings.IndexByte(" PNBRQK  pnbrqk", ch)
+			if pc <= 0 || rank < 0 || file > 7 {
+				return
+			}
+			bd[rank*8+file] = pc
+			file++
+		}
+	}
+	if f[1] == "b" {
+		stm = 1
+	} else if f[1] != "w" {
+		return
+	}
+	if f[2] != "-" {
+		for _, ch := range f[2] {
+			i := strings.IndexRune("KQkq", ch)
+			if i < 0 {
+				return
+			}
+			cr |= 1 << i
+		}
+	}
+	ep = -1
+	if f[3] != "-" {
+		if len(f[3]) != 2 {
+			return
+		}
+		ep = int(f[3][1]-'1')*8 + int(f[3][0]-'a')
+	}
+	if _, err := fmt.Sscanf(f[4], "%d", &hm); err != nil {
+		return
+	}
+	if _, err := fmt.Sscanf(f[5], "%d", &fm); err != nil {
+		return
+	}
+	ok = true
+	return
+}
+
 // LoadCorpus reads one FEN per line ('#' comments and blank lines skipped).
 func LoadCorpus(path string) []string {
 	f, err := os.Open(path)
